@@ -101,6 +101,8 @@ type Config struct {
 	// GenHistory: key indices for which the pos genesis carries a signing info and a missed-block
 	// array (the content of an exported state: validators and former validators with history)
 	GenHistory []int `json:"gen_history,omitempty"`
+	// FreshProc (C01 only): the history is additionally run on an instance in a fresh process
+	FreshProc bool `json:"fresh_proc,omitempty"`
 }
 
 // PosParams are custom pos parameters (nil => module route with the forced defaults).
